@@ -2,6 +2,7 @@
 import Gin.Drv.Selmap
 import Gin.Drv.GinDom
 import Gin.Drv.ScopesDom
+import Gin.Drv.ParseDom
 open Lean Gin.Drv
 
 def handle (j : Json) : Json :=
@@ -9,6 +10,7 @@ def handle (j : Json) : Json :=
   | "selmap" => Gin.Drv.Selmap.run j
   | "gin" => Gin.Drv.GinDom.run j
   | "scopes" => Gin.Drv.ScopesDom.run j
+  | "parse" => Gin.Drv.ParseDom.run j
   | d => Json.mkObj [("error", Json.str s!"unknown domain {d}")]
 
 partial def loop (hin : IO.FS.Stream) (hout : IO.FS.Stream) : IO Unit := do
